@@ -91,7 +91,7 @@ class FakeService:
 
 def big_hex(b):
     """hex, except that a large body is named by its length and digest (keeps events and replays readable)"""
-    if len(b) <= 4096:
+    if len(b) <= 200000:
         return b.hex()
     import hashlib
     return "big:%d:%s" % (len(b), hashlib.sha256(b).hexdigest()[:16])
